@@ -294,6 +294,10 @@ class _DirectedSystem(_DynamicalSystem):
 
         # Avoid closing over `self` to keep Numba happy
         def _rhs_impl(t: float, y: np.ndarray, _base_rhs=base_rhs, _fwd=fwd, _flip=flip_idx) -> np.ndarray:
+            if _fwd == -1 and _flip is None:
+                # Full time reversal: with s = -t, dy/ds = -f(-s, y); the sign of the
+                # time argument only matters for explicitly time-dependent systems.
+                return -_base_rhs(-t, y)
             dy = _base_rhs(t, y)
             if _fwd == -1:
                 if _flip is None:
